@@ -14,4 +14,10 @@ C02_Cases == { <<1, 1, 0>>, <<2, 2, 0>>, <<2, 3, 1>>, <<2, 3, 2>>, <<3, 5, 1>>, 
 C02_Lite1 == { Lf("M",0,1) }
 C02_Constructs3 == {"seq", "and", "not", "grp", "sub", "fn", "eval", "for2", "if", "while", "until", "case"}
 C02_Cases3 == { <<2, 3, 1>>, <<2, 3, 2>>, <<2, 2, 0>> }
+
+\* ---- C03 (errexit / nounset / pipefail): the focus leaf is the failing command or an option toggle
+C03_Full == { Lf("M",0,1), Lf("X",0,3), Lf("us",0,0), Lf("seto",1,0), Lf("seto",1,1), Lf("ret",5,0), Lf("exit",4,0), Lf("brk",1,0) }
+C03_Lite == { Lf("M",0,0), Lf("M",0,1) }
+C03_Constructs == {"seq", "and", "or", "not", "grp", "sub", "fn", "eval", "cs", "pipe", "for2", "if", "elif", "while", "until", "case"}
+C03_Cases == { <<1, 1, 0>>, <<2, 3, 1>>, <<2, 3, 2>> }
 =============================================================================
